@@ -117,6 +117,9 @@ def refactor_entries(pid):
     return out
 
 
+MISSES: dict = {}
+
+
 def seed_entries(pid):
     """breaking changes written by independent sub-agents (seeded/Cxx-mN, seeded/wave*/Cxx-mN): each must be reported by the
     check of its property"""
@@ -124,6 +127,7 @@ def seed_entries(pid):
     import os
     root = os.path.join(os.path.dirname(os.path.dirname(os.path.abspath(__file__))), 'seeded')
     out = []
+    MISSES[pid] = []
     import json
     for d in sorted(glob.glob(os.path.join(root, 'C??-m*'))) + sorted(glob.glob(os.path.join(root, 'wave*', 'C??-m*'))):
         pth = os.path.join(d, 'patch.diff')
@@ -132,7 +136,14 @@ def seed_entries(pid):
         owners = [os.path.basename(d).split('-')[0]]
         try:
             with open(os.path.join(d, 'meta.json')) as fh:
-                owners = json.load(fh).get('kverif_reported_by') or owners
+                meta = json.load(fh)
+            owners = meta.get('kverif_reported_by') or owners
+            if meta.get('kverif_not_detected'):
+                # recorded miss: the change breaks a clause that no static rule of the machinery decides (reason in the meta file and
+                # in DESIGN.md); it is listed in the evidence, not used as a liveness test
+                if pid in owners:
+                    MISSES.setdefault(pid, []).append((os.path.basename(os.path.dirname(d)) + '/' + os.path.basename(d), meta['kverif_not_detected']))
+                continue
         except (OSError, ValueError):
             pass
         if pid not in owners:
@@ -238,7 +249,10 @@ def thorough(pid, ctx, root, seed):
     for a in adv[:40]:
         print(f'  ADVISORY {a}')
     ctx.advisories = list(ctx.advisories) + adv
-    ctx.extra['selftest'] = {'mutants': n_mut, 'benign': n_ben, 'skipped': skipped, 'unexpected': missed, 'results': results}
+    ctx.extra['selftest'] = {'mutants': n_mut, 'benign': n_ben, 'skipped': skipped, 'unexpected': missed, 'results': results,
+                             'seeded_changes_not_detected': [{'seed': s_, 'why': w_} for s_, w_ in MISSES.get(pid, [])]}
+    for s_, w_ in MISSES.get(pid, []):
+        print(f'  NOT-DETECTED seeded change {s_}: {w_[:160]}')
     ctx.tier = 'thorough'
     level = LEVELS.get(pid, 'other')
     extra = {}
